@@ -573,3 +573,244 @@ M.contract(P_RM + ':merge',
                result.is_empty or result.is_everything()
                or (a_non_member(result) >= 1 and not merged_mem(result, a_non_member(result))),
            }, raises_only=())
+
+# ------------------------------------------------------------------------------ reading a limited number of lines
+from exactly_lib.impls.types.string_transformer.impl.filter.line_nums import sources  # noqa: E402
+
+LINES = IterOf(Str)                          # the lines of the text, nothing consumed yet
+LINES_ANYWHERE = IterOf(Str, at_start=False)  # ... an arbitrary number of lines consumed already
+POCKET = MListOf(Str, deque=True)             # a deque of lines
+
+
+def limited_count(size, remaining):
+    """number of items _limited(it, size) takes from an iterator with `remaining` items left
+    (a negative size never reaches 0: everything is taken)"""
+    return 0 if size == 0 else (remaining if size < 0 or remaining < size else size)
+
+
+M.contract(P_SRC + ':_limited',
+           params=dict(iterator=LINES_ANYWHERE, size=Int), yields=ListOf(Str), modifies=('iterator',),
+           old=lambda iterator, size: (iterator.pos, size),
+           ensures={
+               'as-many-as-asked-for-or-all-that-are-left': lambda iterator, size, old, yielded:
+               len(yielded) == limited_count(size, len(iterator.xs) - old[0]),
+               'the-next-items-in-order': lambda iterator, old, yielded:
+               forall_range(0, len(yielded), lambda k: yielded[k] == iterator.xs[old[0] + k]),
+               'consumes-what-it-yields': lambda iterator, old, yielded: iterator.pos == old[0] + len(yielded),
+           }, raises_only=())
+
+M.loop(P_SRC + ':_limited', 0,
+       invariant=lambda _i, _start, iterator, size, old, yielded:
+       _start == old[0] and size == old[1] - (_i - _start) and (old[1] < 0 or size > 0) and len(yielded) == _i - _start
+       and forall_range(0, len(yielded), lambda k: yielded[k] == iterator.xs[old[0] + k]),
+       modifies=dict(size=Int, e='local', yielded='len'))
+
+M.contract(P_SRC + ':_skip',
+           params=dict(num_lines=Int, lines=LINES_ANYWHERE), modifies=('lines',),
+           old=lambda lines: lines.pos,
+           ensures={'skips-that-many-lines-or-all-that-are-left': lambda num_lines, lines, old:
+           lines.pos == old + limited_count(num_lines, len(lines.xs) - old)},
+           raises_only=())
+
+M.loop(P_SRC + ':_skip', 0, invariant=lambda _i: True, modifies={'_': 'local'})
+
+M.contract(P_SRC + ':_filled_pocket',
+           params=dict(size=Int, lines=LINES_ANYWHERE), returns=POCKET, modifies=('lines',),
+           old=lambda lines: lines.pos,
+           ensures={
+               'as-many-as-asked-for-or-all-that-are-left': lambda size, lines, old, result:
+               len(result) == limited_count(size, len(lines.xs) - old),
+               'the-next-lines-in-order': lambda lines, old, result:
+               forall_range(0, len(result), lambda k: result[k] == lines.xs[old + k]),
+               'consumes-what-it-holds': lambda lines, old, result: lines.pos == old + len(result),
+           }, raises_only=())
+
+# ------------------------------------------------------------------------------ the single-range line transformers
+# Each transformer denotes a window [first_line, last_line] of 1-based line numbers (None: no limit on that side;
+# negative parameters count from the end: -1 is line N); its `transform` yields exactly the lines of the text
+# whose number lies in the window, in order.  Parameters as their names say (zero_based_* = line number - 1).
+
+T = sources
+
+
+def first_line(t, N):
+    if isinstance(t, T._SingleNonNegIntTransformer):
+        return t._zero_based_line_num + 1
+    if isinstance(t, T._SingleNegIntTransformer):
+        return N + 1 + t._neg_line_num
+    if isinstance(t, (T._UpperNonNegLimitTransformer, T._UpperNegLimitTransformer)):
+        return None
+    if isinstance(t, (T._LowerNonNegLimitTransformer, T._LowerNonNegUpperNonNegTransformer,
+                      T._LowerNonNegUpperNegTransformer)):
+        return t._zero_based_lower_limit + 1
+    if isinstance(t, T._LowerNegLimitTransformer):
+        return N + 1 + t._neg_line_num
+    if isinstance(t, (T._LowerNegUpperNonNegTransformer, T._LowerNegUpperNegTransformer)):
+        return N + 1 + t._neg_lower_limit
+    raise ValueError('not a single-range transformer')
+
+
+def last_line(t, N):
+    if isinstance(t, T._SingleNonNegIntTransformer):
+        return t._zero_based_line_num + 1
+    if isinstance(t, T._SingleNegIntTransformer):
+        return N + 1 + t._neg_line_num
+    if isinstance(t, (T._LowerNonNegLimitTransformer, T._LowerNegLimitTransformer)):
+        return None
+    if isinstance(t, (T._UpperNonNegLimitTransformer, T._LowerNonNegUpperNonNegTransformer,
+                      T._LowerNegUpperNonNegTransformer)):
+        return t._zero_based_upper_limit + 1
+    if isinstance(t, T._UpperNegLimitTransformer):
+        return N + 1 + t._neg_line_num
+    if isinstance(t, (T._LowerNonNegUpperNegTransformer, T._LowerNegUpperNegTransformer)):
+        return N + 1 + t._neg_upper_limit
+    raise ValueError('not a single-range transformer')
+
+
+def T_mem(t, N, n):
+    """line number n of a text of N lines is in the window of the transformer"""
+    return 1 <= n and n <= N and (first_line(t, N) is None or first_line(t, N) <= n) \
+        and (last_line(t, N) is None or n <= last_line(t, N))
+
+
+def win_start(t, N):
+    """0-based index of the first line of the window"""
+    f = first_line(t, N)
+    return 0 if f is None else max(0, f - 1)
+
+
+def win_end(t, N):
+    """0-based index after the last line of the window"""
+    la = last_line(t, N)
+    return N if la is None else min(N, la)
+
+
+def yields_window(t, X, yielded):
+    return len(yielded) == max(0, win_end(t, len(X)) - win_start(t, len(X))) \
+        and forall_range(0, len(yielded), lambda k: yielded[k] == X[win_start(t, len(X)) + k])
+
+
+def holds_last_lines(pocket, X, pos):
+    """the pocket holds the last len(pocket) lines that have been read (pos lines read so far)"""
+    return len(pocket) <= pos and forall_range(0, len(pocket), lambda j: pocket[j] == X[pos - len(pocket) + j])
+
+
+def first_lines(yielded, X, start):
+    return forall_range(0, len(yielded), lambda k: yielded[k] == X[start + k])
+
+
+def _transformer(cls, requires, loops, **fields):
+    """contract of cls.transform + its loop invariants"""
+    q = '%s:%s.transform' % (P_SRC, cls.__name__)
+    M.contract(q, params=dict(self=Inst(cls, _invariant=requires, **fields), lines=LINES), yields=ListOf(Str),
+               ensures={'exactly-the-lines-of-the-window-in-order': lambda self, lines, yielded:
+               yields_window(self, lines.xs, yielded)}, raises_only=())
+    for ordinal, (inv, mod) in enumerate(loops):
+        M.loop(q, ordinal, invariant=inv, modifies=mod)
+
+
+# call sites (transformers._SingleRangeSourceConstructor): zero-based values are >= 0, negative ones < 0
+_transformer(T._SingleNonNegIntTransformer, lambda self: self._zero_based_line_num >= 0, [
+    (lambda _i, requested, current, yielded: current == _i and requested >= _i and len(yielded) == 0,
+     dict(current=Int, line='local', yielded='len')),
+], _zero_based_line_num=Int)
+
+_transformer(T._SingleNegIntTransformer,
+             lambda self: self._neg_line_num < 0 and self._pocket_size == -self._neg_line_num, [
+                 (lambda _i, self, lines, pocket, yielded:
+                  len(pocket) == self._pocket_size and holds_last_lines(pocket, lines.xs, _i) and len(yielded) == 0,
+                  dict(pocket=POCKET, next_line='local')),
+             ], _neg_line_num=Int, _pocket_size=Int)
+
+_transformer(T._UpperNonNegLimitTransformer, lambda self: self._zero_based_upper_limit >= 0, [
+    (lambda _i, limit, current, lines, yielded:
+     current == _i and limit >= _i and len(yielded) == _i and first_lines(yielded, lines.xs, 0),
+     dict(current=Int, line='local', yielded='len')),
+], _zero_based_upper_limit=Int)
+
+_transformer(T._UpperNegLimitTransformer, lambda self: self._neg_line_num < 0, [
+    (lambda _i, pocket_size, lines, pocket, yielded:
+     len(pocket) == pocket_size and holds_last_lines(pocket, lines.xs, _i)
+     and len(yielded) == _i - pocket_size + 1 and first_lines(yielded, lines.xs, 0),
+     dict(pocket=POCKET, next_line='local', yielded='len')),
+], _neg_line_num=Int)
+
+_transformer(T._LowerNonNegLimitTransformer, lambda self: self._zero_based_lower_limit >= 0, [
+    (lambda _i, _start, lines, yielded: len(yielded) == _i - _start and first_lines(yielded, lines.xs, _start),
+     dict(line='local', yielded='len')),
+], _zero_based_lower_limit=Int)
+
+_transformer(T._LowerNegLimitTransformer, lambda self: self._neg_line_num < 0, [
+    (lambda _i, _start, pocket_size, lines, pocket, yielded:
+     len(pocket) == _start and holds_last_lines(pocket, lines.xs, _i) and len(yielded) == 0,
+     dict(pocket=POCKET, next_line='local')),
+    (lambda _i, pocket, yielded: len(yielded) == _i and first_lines(yielded, pocket, 0),
+     dict(line='local', yielded='len')),
+], _neg_line_num=Int)
+
+_transformer(T._LowerNonNegUpperNonNegTransformer,
+             lambda self: 0 <= self._zero_based_lower_limit and self._zero_based_lower_limit <= self._zero_based_upper_limit,
+             [(lambda _i, _xs, yielded: len(yielded) == _i and first_lines(yielded, _xs, 0),
+               dict(line='local', yielded='len'))],
+             _zero_based_lower_limit=Int, _zero_based_upper_limit=Int)
+
+_LNUN = Inst(T._LowerNonNegUpperNegTransformer,
+             _invariant=lambda self: self._zero_based_lower_limit >= 0 and self._neg_upper_limit < 0,
+             _zero_based_lower_limit=Int, _neg_upper_limit=Int)
+
+M.contract(P_SRC + ':_LowerNonNegUpperNegTransformer._forward_pocket_to_lower_limit',
+           params=dict(self=_LNUN, pocket=POCKET, lines=LINES_ANYWHERE), returns=Bool, modifies=('pocket', 'lines'),
+           # call site: the pocket is full (it holds |upper limit| >= 1 lines: the last ones read)
+           requires=lambda pocket, lines: len(pocket) >= 1 and holds_last_lines(pocket, lines.xs, lines.pos),
+           old=lambda pocket, lines: (lines.pos, len(pocket)),
+           ensures={
+               'reads-lower-limit-lines-or-all-that-are-left': lambda self, lines, old:
+               lines.pos == old[0] + limited_count(self._zero_based_lower_limit, len(lines.xs) - old[0]),
+               'tells-whether-the-lower-limit-was-reached': lambda self, lines, old, result:
+               iff(result, lines.pos == old[0] + self._zero_based_lower_limit),
+               'pocket-still-holds-the-last-lines-read': lambda pocket, lines, old:
+               len(pocket) == old[1] and holds_last_lines(pocket, lines.xs, lines.pos),
+           }, raises_only=())
+
+M.loop(P_SRC + ':_LowerNonNegUpperNegTransformer._forward_pocket_to_lower_limit', 0,
+       invariant=lambda _i, self, left_to_consume, pocket, lines, old:
+       left_to_consume == self._zero_based_lower_limit - _i and len(pocket) == old[1]
+       and holds_last_lines(pocket, lines.xs, old[0] + _i),
+       modifies=dict(left_to_consume=Int, pocket=POCKET, next_line='local'))
+
+M.contract(P_SRC + ':_LowerNonNegUpperNegTransformer.transform',
+           params=dict(self=_LNUN, lines=LINES), yields=ListOf(Str),
+           ensures={'exactly-the-lines-of-the-window-in-order': lambda self, lines, yielded:
+           yields_window(self, lines.xs, yielded)}, raises_only=())
+
+M.loop(P_SRC + ':_LowerNonNegUpperNegTransformer.transform', 0,
+       invariant=lambda _i, self, upper_len, lines, pocket, yielded:
+       len(pocket) == upper_len and holds_last_lines(pocket, lines.xs, _i)
+       and len(yielded) == _i - upper_len - self._zero_based_lower_limit + 1
+       and first_lines(yielded, lines.xs, self._zero_based_lower_limit),
+       modifies=dict(pocket=POCKET, line='local', yielded='len'))
+
+_transformer(T._LowerNegUpperNonNegTransformer,
+             lambda self: self._neg_lower_limit < 0 and self._zero_based_upper_limit >= 0, [
+                 (lambda _i, _start, upper, lines, pocket, pocket_1st_idx, yielded:
+                  len(pocket) == _start and holds_last_lines(pocket, lines.xs, _i)
+                  and pocket_1st_idx == _i - _start and pocket_1st_idx <= upper and len(yielded) == 0,
+                  dict(pocket=POCKET, pocket_1st_idx=Int, line='local')),
+                 (lambda _i, upper, pocket_1st_idx, num_to_produce, pocket, yielded:
+                  num_to_produce == upper - pocket_1st_idx + 1 - _i and num_to_produce >= 0
+                  and len(yielded) == _i and first_lines(yielded, pocket, 0),
+                  dict(num_to_produce=Int, line='local', yielded='len')),
+             ], _neg_lower_limit=Int, _zero_based_upper_limit=Int)
+
+# call site (_lower_and_upper__neg): lower <= upper, both negative
+_transformer(T._LowerNegUpperNegTransformer,
+             lambda self: self._neg_lower_limit <= self._neg_upper_limit and self._neg_upper_limit < 0, [
+                 (lambda _i, _start, lower_len, lines, pocket, yielded:
+                  len(pocket) == _start and lower_len == _start and holds_last_lines(pocket, lines.xs, _i)
+                  and len(yielded) == 0,
+                  dict(pocket=POCKET, line='local')),
+                 (lambda _i, lower_len, upper_len, num_to_produce, pocket, yielded:
+                  num_to_produce == lower_len - upper_len + 1 - _i and num_to_produce >= 0
+                  and len(yielded) == _i and first_lines(yielded, pocket, 0),
+                  dict(num_to_produce=Int, line='local', yielded='len')),
+             ], _neg_lower_limit=Int, _neg_upper_limit=Int)
